@@ -35,7 +35,9 @@ fi
 # run the check against the patch
 cd /repo && git apply $DST/patch.diff || { echo "patch does not apply to /repo HEAD"; exit 3; }
 cd /verif
+cp evidence/$P.json /tmp/evid_backup_$P.json 2>/dev/null
 python3 check.py $P --tier quick > $DST/check_output.txt 2>&1; RC=$?
 git -C /repo checkout -- .
+cp /tmp/evid_backup_$P.json evidence/$P.json 2>/dev/null
 echo "check exit=$RC" | tee -a $RES
 grep -E "VIOLATION|UNDECIDED|KNOWN" $DST/check_output.txt | cut -c1-260
